@@ -25,9 +25,12 @@ type RouteItem struct {
 	ID          uint32 `json:"id"`                  // broker id; ids are per accepting side, so the same number is used in both directions
 	SlowMs      int    `json:"slowMs"`              // (grpc kinds) the server factory passed to AcceptAndServe takes this long
 	WaitReady   bool   `json:"waitReady,omitempty"` // (grpc kinds) the dialler's first call waits for the connection (gRPC keeps reconnecting)
-	Redial      bool   `json:"redial"`
-	AtExpiry    bool   `json:"atExpiry"` // (redial) issued about 5 s after the previous dial to this listener: the moment the broker expires that dial's bookkeeping
-	SkewUs      int    `json:"skewUs"`   // offset from that instant, microseconds (may be negative) // (grpcmux) no new accept: dial the still-open listener of (accepting side, id) again
+	// HoldAtPickupMs (mux): the Accept is held this long between taking the parked connection and
+	// acknowledging it (hook point mux.accept.gotConn)
+	HoldAtPickupMs int  `json:"holdAtPickupMs,omitempty"`
+	Redial         bool `json:"redial"`
+	AtExpiry       bool `json:"atExpiry"` // (redial) issued about 5 s after the previous dial to this listener: the moment the broker expires that dial's bookkeeping
+	SkewUs         int  `json:"skewUs"`   // offset from that instant, microseconds (may be negative) // (grpcmux) no new accept: dial the still-open listener of (accepting side, id) again
 }
 
 // RouteObs: what one end of one id observed.
